@@ -489,6 +489,207 @@ def hoist_len_tests(src):
     return ast.unparse(ast.fix_missing_locations(S().visit(tree))) + '\n'
 
 
+def _simple(e):
+    return isinstance(e, (ast.Name, ast.Constant)) or \
+        (isinstance(e, ast.Attribute) and _simple(e.value)) or \
+        (isinstance(e, ast.Subscript) and _simple(e.value) and _simple(e.slice)) or \
+        (isinstance(e, ast.Call) and isinstance(e.func, ast.Name) and e.func.id == 'len' and len(e.args) == 1 and _simple(e.args[0])) or \
+        (isinstance(e, ast.BinOp) and _simple(e.left) and _simple(e.right))
+
+
+def _is_num(e):
+    return isinstance(e, ast.Constant) and isinstance(e.value, int) and not isinstance(e.value, bool)
+
+
+def const_left(src):
+    """x + 1 -> 1 + x, x * 2 -> 2 * x  (numeric constant operand, the other operand free of side effects)"""
+    tree = ast.parse(src)
+
+    class S(ast.NodeTransformer):
+        def visit_BinOp(self, n):
+            self.generic_visit(n)
+            if isinstance(n.op, (ast.Add, ast.Mult)) and _is_num(n.right) and not isinstance(n.left, ast.Constant) and _simple(n.left) \
+                    and not isinstance(n.left, (ast.List, ast.Tuple)):
+                return ast.copy_location(ast.BinOp(n.right, n.op, n.left), n)
+            return n
+    return ast.unparse(ast.fix_missing_locations(S().visit(tree))) + '\n'
+
+
+def range_explicit_start(src):
+    """range(n) -> range(0, n)"""
+    tree = ast.parse(src)
+
+    class S(ast.NodeTransformer):
+        def visit_Call(self, n):
+            self.generic_visit(n)
+            if isinstance(n.func, ast.Name) and n.func.id == 'range' and len(n.args) == 1 and not n.keywords:
+                n.args = [ast.Constant(0), n.args[0]]
+            return n
+    return ast.unparse(ast.fix_missing_locations(S().visit(tree))) + '\n'
+
+
+def last_by_len(src):
+    """X[-1] -> X[len(X) - 1]  for a plain name X (load context)"""
+    tree = ast.parse(src)
+
+    class S(ast.NodeTransformer):
+        def visit_Subscript(self, n):
+            self.generic_visit(n)
+            if isinstance(n.ctx, ast.Load) and isinstance(n.value, ast.Name) and \
+                    ((isinstance(n.slice, ast.UnaryOp) and isinstance(n.slice.op, ast.USub) and _is_num(n.slice.operand) and
+                      n.slice.operand.value == 1) or (_is_num(n.slice) and n.slice.value == -1)):
+                n.slice = ast.BinOp(ast.Call(ast.Name('len', ast.Load()), [ast.Name(n.value.id, ast.Load())], []), ast.Sub(),
+                                    ast.Constant(1))
+            return n
+    return ast.unparse(ast.fix_missing_locations(S().visit(tree))) + '\n'
+
+
+def shift_strict_bound(src):
+    """a + c < b  ->  a < b - c   for int constant c and side-effect-free operands (integers)"""
+    tree = ast.parse(src)
+
+    class S(ast.NodeTransformer):
+        def visit_Compare(self, n):
+            self.generic_visit(n)
+            if len(n.ops) == 1 and isinstance(n.ops[0], (ast.Lt, ast.LtE)) and isinstance(n.left, ast.BinOp) and \
+                    isinstance(n.left.op, ast.Add) and _is_num(n.left.right) and _simple(n.left.left) and _simple(n.comparators[0]) \
+                    and isinstance(n.comparators[0], ast.Call):
+                return ast.copy_location(ast.Compare(n.left.left, n.ops,
+                                                     [ast.BinOp(n.comparators[0], ast.Sub(), n.left.right)]), n)
+            return n
+    return ast.unparse(ast.fix_missing_locations(S().visit(tree))) + '\n'
+
+
+def len_zero_forms(src):
+    """len(x) == 0 -> len(x) < 1 ; len(x) > 0 -> len(x) >= 1"""
+    tree = ast.parse(src)
+
+    class S(ast.NodeTransformer):
+        def visit_Compare(self, n):
+            self.generic_visit(n)
+            if len(n.ops) == 1 and isinstance(n.left, ast.Call) and isinstance(n.left.func, ast.Name) and n.left.func.id == 'len' \
+                    and _is_num(n.comparators[0]) and n.comparators[0].value == 0:
+                if isinstance(n.ops[0], ast.Eq):
+                    return ast.copy_location(ast.Compare(n.left, [ast.Lt()], [ast.Constant(1)]), n)
+                if isinstance(n.ops[0], ast.Gt):
+                    return ast.copy_location(ast.Compare(n.left, [ast.GtE()], [ast.Constant(1)]), n)
+            return n
+    return ast.unparse(ast.fix_missing_locations(S().visit(tree))) + '\n'
+
+
+def while_true_break(src):
+    """while C: body   ->   while True: if not C: break; body     (loops without else)"""
+    tree = ast.parse(src)
+
+    class S(ast.NodeTransformer):
+        def visit_While(self, n):
+            self.generic_visit(n)
+            if n.orelse or (isinstance(n.test, ast.Constant)):
+                return n
+            guard = ast.If(_negate(n.test), [ast.Break()], [])
+            return ast.copy_location(ast.While(ast.Constant(True), [guard] + n.body, []), n)
+    return ast.unparse(ast.fix_missing_locations(S().visit(tree))) + '\n'
+
+
+def split_and_into_nested_if(src):
+    """if a and b: X   (no else)  ->  if a: if b: X"""
+    tree = ast.parse(src)
+
+    class S(ast.NodeTransformer):
+        def visit_If(self, n):
+            self.generic_visit(n)
+            if not n.orelse and isinstance(n.test, ast.BoolOp) and isinstance(n.test.op, ast.And) and len(n.test.values) == 2:
+                inner = ast.If(n.test.values[1], n.body, [])
+                return ast.copy_location(ast.If(n.test.values[0], [inner], []), n)
+            return n
+    return ast.unparse(ast.fix_missing_locations(S().visit(tree))) + '\n'
+
+
+def demorgan_or_tests(src):
+    """if a or b: X else: Y  ->  if not a and not b: Y else: X   (both arms present)"""
+    tree = ast.parse(src)
+
+    class S(ast.NodeTransformer):
+        def visit_If(self, n):
+            self.generic_visit(n)
+            if n.orelse and isinstance(n.test, ast.BoolOp) and isinstance(n.test.op, ast.Or) and len(n.test.values) == 2 and \
+                    not (len(n.orelse) == 1 and isinstance(n.orelse[0], ast.If)):
+                t = ast.BoolOp(ast.And(), [_negate(n.test.values[0]), _negate(n.test.values[1])])
+                return ast.copy_location(ast.If(t, n.orelse, n.body), n)
+            return n
+    return ast.unparse(ast.fix_missing_locations(S().visit(tree))) + '\n'
+
+
+def unpack_by_subscript(src):
+    """for a, b in X: ...  ->  for zz_p in X: a = zz_p[0]; b = zz_p[1]; ...   (X not an enumerate / zip call; flat 2-tuples)"""
+    tree = ast.parse(src)
+    counter = [0]
+
+    class S(ast.NodeTransformer):
+        def visit_For(self, n):
+            self.generic_visit(n)
+            if isinstance(n.target, ast.Tuple) and len(n.target.elts) == 2 and all(isinstance(e, ast.Name) for e in n.target.elts) \
+                    and not (isinstance(n.iter, ast.Call) and isinstance(n.iter.func, ast.Name) and n.iter.func.id in ('enumerate', 'zip')):
+                counter[0] += 1
+                p = 'zz_pair%d' % counter[0]
+                pre = [ast.Assign([ast.Name(e.id, ast.Store())], ast.Subscript(ast.Name(p, ast.Load()), ast.Constant(i), ast.Load()))
+                       for i, e in enumerate(n.target.elts)]
+                return ast.copy_location(ast.For(ast.Name(p, ast.Store()), n.iter, pre + n.body, n.orelse), n)
+            return n
+    return ast.unparse(ast.fix_missing_locations(S().visit(tree))) + '\n'
+
+
+def reversed_by_index(src):
+    """for a in X[::-1]: body  ->  for zz_i in range(len(X)): a = X[len(X) - 1 - zz_i]; body   (X a plain name, a a plain name or
+    a flat tuple of names)"""
+    tree = ast.parse(src)
+    counter = [0]
+
+    class S(ast.NodeTransformer):
+        def visit_For(self, n):
+            self.generic_visit(n)
+            it = n.iter
+            if isinstance(it, ast.Subscript) and isinstance(it.value, ast.Name) and isinstance(it.slice, ast.Slice) and \
+                    it.slice.lower is None and it.slice.upper is None and isinstance(it.slice.step, ast.UnaryOp) and \
+                    isinstance(it.slice.step.op, ast.USub) and _is_num(it.slice.step.operand) and it.slice.step.operand.value == 1:
+                counter[0] += 1
+                i = 'zz_rev%d' % counter[0]
+                x = it.value.id
+                ln = ast.Call(ast.Name('len', ast.Load()), [ast.Name(x, ast.Load())], [])
+                idx = ast.BinOp(ast.BinOp(ln, ast.Sub(), ast.Constant(1)), ast.Sub(), ast.Name(i, ast.Load()))
+                bind = ast.Assign([n.target], ast.Subscript(ast.Name(x, ast.Load()), idx, ast.Load()))
+                rng = ast.Call(ast.Name('range', ast.Load()), [ast.Call(ast.Name('len', ast.Load()), [ast.Name(x, ast.Load())], [])], [])
+                return ast.copy_location(ast.For(ast.Name(i, ast.Store()), rng, [bind] + n.body, n.orelse), n)
+            return n
+    return ast.unparse(ast.fix_missing_locations(S().visit(tree))) + '\n'
+
+
+def negated_complement_tests(src):
+    """in if / while tests: a < b -> not a >= b, a >= b -> not a < b ... for side-effect-free integer-looking operands (a len() call or
+    an int constant on one side)"""
+    tree = ast.parse(src)
+    comp = {ast.Lt: ast.GtE, ast.LtE: ast.Gt, ast.Gt: ast.LtE, ast.GtE: ast.Lt}
+
+    def rewrite(t):
+        if isinstance(t, ast.Compare) and len(t.ops) == 1 and type(t.ops[0]) in comp and _simple(t.left) and _simple(t.comparators[0]) \
+                and any(_is_num(x) or (isinstance(x, ast.Call) and isinstance(x.func, ast.Name) and x.func.id == 'len')
+                        for x in (t.left, t.comparators[0])):
+            return ast.UnaryOp(ast.Not(), ast.Compare(t.left, [comp[type(t.ops[0])]()], t.comparators))
+        return t
+
+    class S(ast.NodeTransformer):
+        def visit_If(self, n):
+            self.generic_visit(n)
+            n.test = rewrite(n.test)
+            return n
+
+        def visit_While(self, n):
+            self.generic_visit(n)
+            n.test = rewrite(n.test)
+            return n
+    return ast.unparse(ast.fix_missing_locations(S().visit(tree))) + '\n'
+
+
 TWINS = {
     'unparse': unparse_only,
     'rename-locals': rename_locals,
@@ -514,4 +715,15 @@ TWINS = {
     'range-len-to-enumerate': range_len_to_enumerate,
     'swap-independent-assignments': swap_independent_assignments,
     'hoist-len-tests': hoist_len_tests,
+    'const-left': const_left,
+    'range-explicit-start': range_explicit_start,
+    'last-by-len': last_by_len,
+    'shift-strict-bound': shift_strict_bound,
+    'len-zero-forms': len_zero_forms,
+    'while-true-break': while_true_break,
+    'split-and-into-nested-if': split_and_into_nested_if,
+    'demorgan-or-tests': demorgan_or_tests,
+    'unpack-by-subscript': unpack_by_subscript,
+    'reversed-by-index': reversed_by_index,
+    'negated-complement-tests': negated_complement_tests,
 }
